@@ -20,7 +20,7 @@ import vlib
 
 PID = "C15"
 NPOS = 4294967295
-SYNTH_FILES = ["@skin_sse", "@skin_le", "@skin_fo4", "@skin_ob"]
+SYNTH_FILES = ["@skin_sse", "@skin_le", "@skin_fo4", "@skin_ob", "@skin2_sse", "@skin2_le", "@skin2_fo4"]
 
 # API-built collision structures (see c_build_synth in harness/o_corrupt.cpp); every reference of every
 # block is then overwritten with every value of {empty, 0..n-1, n, n+5}
@@ -36,6 +36,8 @@ SYNTH_BASES = [
 KNOWN_UB = [
     # aborting undefined behaviour unrelated to references: (finding id, skip flag, all of these substrings in stderr)
     ("C15-ub-misaligned-skinweight-ref", "bw", ["runtime error: reference binding to misaligned address", "GetShapeBoneWeights"]),
+    # a genuine reference-corruption defect with a narrow, recognisable class: that one query is skipped and the rest re-run
+    ("C15-bonebounds-unchecked-index", "bb", ["AddressSanitizer: heap-buffer-overflow", "NifFile::GetShapeBoneBounds"]),
 ]
 # recoverable UBSan reports (the asan flavour continues after invalid bool/enum loads): finding id, substrings
 KNOWN_WARN = [
@@ -76,7 +78,16 @@ def par_run(binp, args, cases, env, timeout=600, min_batch=4, workers=None, warn
     with cf.ThreadPoolExecutor(max_workers=workers) as ex:
         res = list(ex.map(lambda ch: vlib.run_cases_robust(binp, args, ch, timeout_per_batch=timeout, batch=len(ch) + 1, env=env,
                                                            single_timeout=single_timeout, warnings=warnings), chunks))
-    return [r for rs in res for r in rs]
+    out = [r for rs in res for r in rs]
+    # vlib.run_lines returns [''] for an empty stdout, which run_cases_robust takes for the first case's
+    # output when a batch dies on its first case: such a result is re-run on its own
+    bad = [i for i, (c, l, cr) in enumerate(out) if cr is None and (l is None or not l.startswith(("I=", "M=")))]
+    if bad:
+        e = env
+        redo = run_each(binp, args, [out[i][0] for i in bad], e, timeout=single_timeout or 120)
+        for i, r in zip(bad, redo):
+            out[i] = r
+    return out
 
 
 def run_each(binp, args, cases, env, timeout=60, workers=None, warnings=None):
@@ -140,6 +151,7 @@ def gen_file_cases(name, scan, tier, rng, small):
     n = scan["n"]
     anc = ancestors(scan)
     fields = scan["fields"]
+    big = len(fields) > 150                 # FO76, DeepGraph, Animated: most of the run time
     types = [b["ty"] for b in scan["blocks"]]
     out = []
 
@@ -157,6 +169,8 @@ def gen_file_cases(name, scan, tier, rng, small):
         chain = anc.get(f["owner"], [])
         if tier == "quick" and len(chain) > 3:
             chain = chain[:2] + chain[-1:]          # parent, grandparent, root
+        elif big and len(chain) > 4:
+            chain = chain[:2] + [chain[len(chain) // 2]] + chain[-1:]
         for a in chain:
             if a != f["val"]:
                 vals.append(("ancestor", a))
@@ -166,9 +180,12 @@ def gen_file_cases(name, scan, tier, rng, small):
         cur_ty = types[f["val"]] if f["val"] != NPOS and f["val"] < n else None
         others = [i for i in range(n) if i != f["val"]]
         wrong = [i for i in others if types[i] != cur_ty]
+        same = [i for i in others if types[i] == cur_ty]
         picks = []
+        if same:
+            picks.append(rng.choice(same))      # another block of the type the field expects: passes the type test
         if wrong:
-            picks.append(rng.choice(wrong))
+            picks.append(rng.choice(wrong))     # a block of another type
         while len(picks) < k and others:
             picks.append(rng.choice(others))
         return [("inrange", v) for v in picks[:k]]
@@ -181,10 +198,10 @@ def gen_file_cases(name, scan, tier, rng, small):
         nmulti = 12 if small else 3
     else:
         for f in fields:
-            arb = [("inrange", v) for v in range(n) if v != f["val"]] if n <= 24 else arbitrary(f, 8)
+            arb = [("inrange", v) for v in range(n) if v != f["val"]] if n <= 24 else arbitrary(f, 4 if big else 6)
             for kind, v in fixed_kinds(f) + arb:
                 out.append({"file": name, "at": [(f["off"], v)], "kind": kind})
-        nmulti = 150 if n <= 24 else 50
+        nmulti = 120 if n <= 24 else 40
     # 2..3 simultaneous corruptions
     if len(fields) >= 2:
         for _ in range(nmulti):
@@ -262,6 +279,22 @@ def gen_synth_cases(tier, rng):
 COMPARED = ["n", "shapes", "nodes", "root", "tree", "lk", "rf", "par", "ts", "nd", "du", "so"]
 
 
+def skin_mismatch(graph):
+    """some shape's BSSkin::Instance (bn = its bone count) points to a BSSkin::BoneData holding fewer records (bx)"""
+    if " g=" not in " " + graph:
+        return False
+    blocks = [dict((x[:2], x[3:]) for x in b.split(";") if len(x) >= 3) for b in graph.split("g=", 1)[1].split("+")]
+    for b in blocks:
+        sk = b.get("sk", "")
+        if sk.isdigit() and int(sk) < len(blocks):
+            inst = blocks[int(sk)]
+            sd = inst.get("sd", "")
+            if "bn" in inst and sd.isdigit() and int(sd) < len(blocks) and "bx" in blocks[int(sd)]:
+                if int(blocks[int(sd)]["bx"]) < int(inst["bn"]):
+                    return True
+    return False
+
+
 def known_match(k, ctx):
     """does the known-finding entry k describe this failure? (every key of its matcher is checked)"""
     m = k.get("match", {})
@@ -274,6 +307,8 @@ def known_match(k, ctx):
     if m.get("model_parent_walk_diverges") and not ctx.get("ntg_diverges"):
         return False
     if m.get("watchdog") and "WATCHDOG" not in ctx.get("stderr", ""):
+        return False
+    if m.get("graph_has_skin_with_fewer_bone_records") and not skin_mismatch(ctx.get("graph", "")):
         return False
     for s in m.get("stderr_contains", []):
         if s not in ctx.get("stderr", ""):
@@ -295,8 +330,12 @@ def run(tier, seed, replay=None):
     if not pr["ok"] or hygiene:
         rep.violation("proof obligations of Properties_C15.v not discharged: " + ",".join(pr["failed"] or hygiene),
                       {"broken": "theorems " + ",".join(pr["failed"]), "log": pr["log"][-3000:], "hygiene": hygiene}, found_input=False)
-    impl_bin = os.environ.get("C15_IMPL_BIN") or vlib.build_oracle("asan")
-    model_bin = os.environ.get("C15_MODEL_BIN") or vlib.build_model_oracle()
+    impl_exe = vlib.build_oracle("asan")
+    model_bin = vlib.build_model_oracle()
+    # vlib gives every child a 1 GB stack (for the extracted models); unbounded recursion in the
+    # implementation must hit the usual 8 MB limit quickly instead
+    impl_bin = "/bin/sh"
+    IMPL = ["-c", "ulimit -s 8192; exec '%s' corrupt" % impl_exe]
     rng = random.Random(seed)
     samples_dir = os.environ.get("VERIF_SAMPLES") or os.path.join(vlib.REPO, "tests", "input")
     env = {"VERIF_SAMPLES": samples_dir, "VERIF_CASE_TIMEOUT": "20",
@@ -324,7 +363,7 @@ def run(tier, seed, replay=None):
     else:
         files = sorted(f for f in os.listdir(samples_dir) if f.endswith(".nif")) + SYNTH_FILES
         specs = []
-    scan_res = par_run(impl_bin, ["corrupt"], ["scan file=%s" % f for f in files], env, timeout=300, min_batch=1)
+    scan_res = par_run(impl_bin, IMPL, ["scan file=%s" % f for f in files], env, timeout=300, min_batch=1)
     for f, (c, line, crash) in zip(files, scan_res):
         if crash is not None or line is None or not line.startswith("I=ok"):
             rep.violation("reference scan of a sample failed (harness save loop / hook): " + str((line or "")[:120]),
@@ -339,7 +378,7 @@ def run(tier, seed, replay=None):
         flags, out = [], []
         for _ in range(len(KNOWN_UB) + 1):
             case = battery_line({"file": f, "at": [], "kind": "baseline"}, flags)
-            (_, line, crash), = run_each(impl_bin, ["corrupt"], [case], env, timeout=240, warnings=warnings)
+            (_, line, crash), = run_each(impl_bin, IMPL, [case], env, timeout=240, warnings=warnings)
             if crash is None:
                 return flags, out, True
             hit = None
@@ -394,7 +433,7 @@ def run(tier, seed, replay=None):
 
     # ---------------------------------------------------------------- load + graph dump, model
     t0 = time.time()
-    gres = par_run(impl_bin, ["corrupt"], [mk("graph", s) for s in specs], env, timeout=600)
+    gres = par_run(impl_bin, IMPL, [mk("graph", s) for s in specs], env, timeout=600)
     live = []
     for s, (c, line, crash) in zip(specs, gres):
         if crash is not None or line is None:
@@ -435,13 +474,13 @@ def run(tier, seed, replay=None):
     random.Random(seed + 2).shuffle(order)
     first = sorted(order[:min(len(order), 320)])
     rest = sorted(order[len(first):])
-    part1 = par_run(impl_bin, ["corrupt"], [ready[i]["battery_case"] for i in first], env, timeout=900, warnings=warnings, single_timeout=40)
+    part1 = par_run(impl_bin, IMPL, [ready[i]["battery_case"] for i in first], env, timeout=900, warnings=warnings, single_timeout=40)
     ncrash1 = sum(1 for (_, l, cr) in part1 if cr is not None or l is None)
     skipped_after_slice = 0
     if ncrash1 >= 12 and not replay:
         skipped_after_slice = len(rest)
         rest = []
-    part2 = par_run(impl_bin, ["corrupt"], [ready[i]["battery_case"] for i in rest], env, timeout=900, warnings=warnings, single_timeout=40)
+    part2 = par_run(impl_bin, IMPL, [ready[i]["battery_case"] for i in rest], env, timeout=900, warnings=warnings, single_timeout=40)
     bmap = dict(zip(first + rest, part1 + part2))
     ready = [ready[i] for i in sorted(bmap)]
     bres = [bmap[i] for i in sorted(bmap)]
@@ -457,20 +496,25 @@ def run(tier, seed, replay=None):
         check_line(s, c, line, mism, specfails, nontriv)
     # a crash: known undefined behaviour unrelated to references is skipped around once, anything else is a violation
     for (s, c, crash) in retry:
-        hit = None
-        for kid, flag, pats in KNOWN_UB:
-            if all(p in (crash or {}).get("stderr", "") for p in pats) and flag not in s["flags"]:
-                hit = (kid, flag)
-        ctx = {"op": "battery", "stderr": (crash or {}).get("stderr", ""), "case": c, "sortv": s["model"].get("sortv", "")}
-        if hit and hit[0] in known and known_match(known[hit[0]], ctx):
+        line = None
+        for _ in range(len(KNOWN_UB) + 1):
+            err = (crash or {}).get("stderr", "")
+            hit = None
+            for kid, flag, pats in KNOWN_UB:
+                if all(p in err for p in pats) and flag not in s["flags"]:
+                    hit = (kid, flag)
+            ctx = {"op": "battery", "stderr": err, "case": c, "sortv": s["model"].get("sortv", ""), "graph": s.get("graph", "")}
+            if not (hit and hit[0] in known and known_match(known[hit[0]], ctx)):
+                break
             rep.known_finding(hit[0], c)
             s["flags"].append(hit[1])
-            c2 = battery_line(s, s["flags"], s["sort_diverges"], s["ntg"])
-            (_, line2, crash2), = run_each(impl_bin, ["corrupt"], [c2], env, timeout=240)
-            if crash2 is None and line2:
-                check_line(s, c2, line2, mism, specfails, nontriv)
-                continue
-            c, crash = c2, crash2
+            c = battery_line(s, s["flags"], s["sort_diverges"], s["ntg"])
+            (_, line, crash), = run_each(impl_bin, IMPL, [c], env, timeout=240)
+            if crash is None:
+                break
+        if crash is None and line:
+            check_line(s, c, line, mism, specfails, nontriv)
+            continue
         what = "hang (watchdog)" if "WATCHDOG" in (crash or {}).get("stderr", "") else "crash (sanitizer/abort)"
         rep.violation("%s in load/query/copy/save of a file with a corrupted block reference [%s]" % (what, crash_site(crash)),
                       {"case": c, "family": "corrupt", "crash": crash, "model": s["model"]})
@@ -495,7 +539,7 @@ def run(tier, seed, replay=None):
         if m:
             key = ">".join(tys[int(i)] for i in m.group(1).split(".") if int(i) < len(tys))
             cycle_types[key] = cycle_types.get(key, 0) + 1
-    sres = run_each(impl_bin, ["corrupt"], [mk("sort", s) for s in conf_sort], env, timeout=120)
+    sres = run_each(impl_bin, IMPL, [mk("sort", s) for s in conf_sort], env, timeout=120)
     confirmed_sort = confirmed_ntg = 0
     for s, (c, line, crash) in zip(conf_sort, sres):
         ctx = {"op": "sort", "stderr": (crash or {}).get("stderr", ""), "case": c, "sortv": s["model"].get("sortv", "")}
@@ -505,7 +549,7 @@ def run(tier, seed, replay=None):
         if known_or_violation(ctx, "PrettySortBlocks crashed on a corrupted reference [%s]" % crash_site(crash),
                               {"case": c, "family": "corrupt", "crash": crash, "model": s["model"]}):
             confirmed_sort += 1
-    nres = run_each(impl_bin, ["corrupt"], [mk("ntg", s, " node=%s" % f) for (s, f) in conf_ntg], env, timeout=60)
+    nres = run_each(impl_bin, IMPL, [mk("ntg", s, " node=%s" % f) for (s, f) in conf_ntg], env, timeout=60)
     for (s, f), (c, line, crash) in zip(conf_ntg, nres):
         ctx = {"op": "ntg", "stderr": (crash or {}).get("stderr", ""), "case": c, "ntg_diverges": True}
         if crash is None:
@@ -536,7 +580,7 @@ def run(tier, seed, replay=None):
     cov.update({
         "evaluations": len(specs),
         "distinct_nontrivial": len(nontriv),
-        "rule": "per sample / API-synthesised file: every block-reference field found by the reference hook in the raw-saved file (quick: all fields of files <= 30 KB, 6 random fields of larger ones; thorough: all fields of all files) x {empty, count, count+5 / 0x7FFFFFFF (quick: one of the two per field), owner itself, each tree ancestor of the owner (quick: parent, grandparent, root), in-range indices (quick: 2 per field, one of another block type; thorough: every index when the file has <= 24 blocks, else 8)} + seeded random pairs/triples; API-built collision structures with every reference x every value; a case is non-trivial when the patched file loaded, its dumped graph differs from the uncorrupted file's and the whole battery ran; distinct = distinct case specifications",
+        "rule": "per sample / API-synthesised file: every block-reference field found by the reference hook in the raw-saved file (quick: all fields of files <= 30 KB, 6 random fields of larger ones; thorough: all fields of all files) x {empty, count, count+5 / 0x7FFFFFFF (quick: one of the two per field), owner itself, each tree ancestor of the owner (quick: parent, grandparent, root), in-range indices (quick: 2 per field: another block of the same type as the current target when there is one, and one of another type; thorough: every index when the file has <= 24 blocks, else 6 (4 and at most 4 ancestors for the three files with more than 150 reference fields))} + seeded random pairs/triples; API-built collision structures with every reference x every value; a case is non-trivial when the patched file loaded, its dumped graph differs from the uncorrupted file's and the whole battery ran; distinct = distinct case specifications",
         "samples": [mk("battery", s) for s in (specs[:2] + specs[len(specs) // 2:len(specs) // 2 + 2] + specs[-2:])],
         "input_distribution": {"files": len(scans), "reference_fields_per_file": nfields, "reference_fields": sum(nfields.values()),
                                "cases_per_kind": kinds, "files_with_baseline_flags": {f: v for f, v in file_flags.items() if v}},
@@ -563,7 +607,10 @@ def run(tier, seed, replay=None):
     return rep.finish(cov, level_note)
 
 
-UNPROVED = []
+UNPROVED = [
+    "converse of the fuel bound: 'the model exhausts fuel (n+1)^2+1 => it exhausts every fuel' (a bound on the recursion depth of every TERMINATING run) is not proved; the per-case verdict 'diverges' therefore also requires the closed-set certificate (C15_sort_collision_diverges_graph) and is confirmed on the implementation",
+    "existence of a rank for every graph without a cycle of before-parent calls (acyclic => ranked) is not proved in Coq; the rank is found by the untrusted driver and CHECKED by the extracted rg_rank_ok (sound by C15_pretty_sort_total_graph)",
+]
 
 
 def flag_str(flags):
